@@ -6,7 +6,7 @@ same pass (markers are allocated while printing, nothing is parsed back), folds 
 
   segments  = tuple of segment
   segment   = ('t', ((marker, fmt), ...))            run of text inside one paragraph, fmt = tuple of formatting ancestors
-            | ('list', kind, ((term|None, segments), ...))
+            | ('list', kind, ((term|None, (position, ref)|None, segments), ...))
             | ('table', ncols_declared, rows, H, V, problems)
             | ('env', name, segments)
   rows      = ((span, text-align, segments), ...) per row   (alignment of the column type / of the \\multicolumn spec)
@@ -27,20 +27,31 @@ Deviation switches (each predicts the complete observation when switched on):
                             regardless of its colspan
   LEADING_AT_BOGUS_COLUMNS  Array.compileColspec does not read the argument of an @ met before the first column, so the
                             two brace tokens of `@{}` become two style-less columns in front of the real ones
+  VLINE_WHOLE_ROW           ArrayRow.applyBorders hands a \\vline found at the start / end of one cell to every cell of
+                            the row, so all cells of that row get the left / right border
+  LEADING_RULE_ROW_LOST     Array.applyBorders: a rule-only row that is not followed directly by the first content row
+                            (or is not the very first row) and has no content row above it hands its rules to nobody
+
+Rows without any content (all cells empty, or nothing at all before \\\\), with or without rule commands in front, are
+not rows of the table (statement: "r non-empty rows yield r rows"; plasTeX: border-only rows are dropped).  A rule written
+next to such rows lies on the boundary between the nearest surviving rows.
 """
 import re
 
 MARK = re.compile(r'wq[a-p]+z')
 CLINE_SKIP_SPAN = 'C10.CLINE_SKIP_SPAN'
 LEADING_AT = 'C10.LEADING_AT_BOGUS_COLUMNS'
-DEVIATIONS = (CLINE_SKIP_SPAN, LEADING_AT)
+VLINE_ROW = 'C10.VLINE_WHOLE_ROW'
+RULE_ROW_LOST = 'C10.LEADING_RULE_ROW_LOST'
+DEVIATIONS = (CLINE_SKIP_SPAN, LEADING_AT, VLINE_ROW, RULE_ROW_LOST)
 
 LIST_KINDS = ('itemize', 'enumerate', 'description')
 
 
 class Alloc(object):
-    def __init__(self):
+    def __init__(self, pos=False):
         self.n = 0
+        self.pos = pos          # the document has LaTeX's enum counters (a class is loaded): item numbers are observable
 
     def __call__(self):
         self.n += 1
@@ -73,6 +84,9 @@ def spec_spellings(cols, bars):
         out.append(['at', k, 0])
         if bars[k]:
             out.append(['at', k, 1])
+    for k in range(n):
+        out.append(['gt', k])
+        out.append(['lt', k])
     for u in (1, 2):
         for i in range(n):
             for k in range(1, (n - i) // u + 1):
@@ -110,6 +124,16 @@ def print_spec(cols, bars, spell):
         k, before = spell[1], spell[2]
         G = list(G)
         G[k] = ('@{}' + G[k]) if before else (G[k] + '@{}')
+        s = ''
+        for j in range(n):
+            s += G[j] + C[j]
+        return s + G[n]
+    if kind in ('gt', 'lt'):
+        # array package: >{decl} directly before a column letter, <{decl} directly after it; neither is a column.
+        # The declarations are chosen invisible to the observation, so only "not a column, argument consumed" is tested
+        k = spell[1]
+        C = list(C)
+        C[k] = ('>{\\raggedright}' + C[k]) if kind == 'gt' else (C[k] + '<{\\relax}')
         s = ''
         for j in range(n):
             s += G[j] + C[j]
@@ -167,6 +191,9 @@ def cell_body(kind, m, outer, dev):
     if kind == 'M':
         a = m()
         return a, (T(a),)
+    if kind in ('VL', 'VR', 'VB'):
+        a = m()
+        return ('\\vline ' if kind in ('VL', 'VB') else '') + a + (' \\vline' if kind in ('VR', 'VB') else ''), (T(a),)
     if kind == 'M2':
         a, b = m(), m()
         return '%s %s' % (a, b), (T(a, b),)
@@ -196,7 +223,7 @@ def cell_body(kind, m, outer, dev):
     if kind == 'LI':
         a, b = m(), m()
         return ('\\begin{itemize}\\item %s \\item %s\\end{itemize}' % (a, b),
-                (('list', 'itemize', ((None, (T(a),)), (None, (T(b),)))),))
+                (list_exp('itemize', [(None, (T(a),)), (None, (T(b),))], m),))
     if kind == 'DF':
         a = m()
         return '\\def\\zzL{%s}\\zzL' % a, (T(a),)
@@ -246,6 +273,8 @@ def build_table(ast, m, outer, dev=()):
         colspecs += [[False, bool(bars[c + 1]), ALIGN[cols[c]]] for c in range(n)]
     else:
         colspecs = [[c == 0 and bool(bars[0]), bool(bars[c + 1]), ALIGN[cols[c]]] for c in range(n)]
+    keep = [not row_is_empty(row) for row in rows]          # rows without content are not rows of the table
+    sidx = [sum(keep[:i]) for i in range(r + 1)]           # written row / boundary -> surviving row / boundary
     for i, row in enumerate(rows):
         s = rule_src(i)
         if s:
@@ -253,6 +282,9 @@ def build_table(ast, m, outer, dev=()):
         cells_src = []
         cells_exp = []
         col = 0
+        si = sidx[i]
+        extent = []
+        vl = vr = False
         for span, mcspec, kind in row:
             body, segs = cell_body(kind, m, outer, dev)
             if mcspec is not None:
@@ -261,15 +293,28 @@ def build_table(ast, m, outer, dev=()):
                 align = mc_align(mcspec)
             else:
                 left, right, align = colspecs[col] if col < len(colspecs) else (False, False, None)
-            if left:
-                V.add((col, i))
-            if right:
-                V.add((col + span, i))
+            if kind in ('VL', 'VB'):        # \vline at the start of the cell: a rule on its left side
+                left = vl = True
+            if kind in ('VR', 'VB'):
+                right = vr = True
+            if keep[i]:
+                if left:
+                    V.add((col, si))
+                if right:
+                    V.add((col + span, si))
+            extent.append((col, col + span))
             cells_src.append(body)
             cells_exp.append((span, align, segs))
             col += span
+        if keep[i] and VLINE_ROW in dev:
+            for c0, c1 in extent:
+                if vl:
+                    V.add((c0, si))
+                if vr:
+                    V.add((c1, si))
         out.append(amp.join(cells_src))
-        exp_rows.append(tuple(cells_exp))
+        if keep[i]:
+            exp_rows.append(tuple(cells_exp))
         if i < r - 1 or ast.get('final') or any(rules[r]):
             out.append((' ' if not tight else '') + term)
             if tight and term[-1].isalpha():
@@ -290,14 +335,24 @@ def build_table(ast, m, outer, dev=()):
         return res
 
     for b in range(r + 1):
+        if not any(rules[b]):
+            continue
+        if RULE_ROW_LOST in dev and b < r and not keep[b]:
+            # literal hand-over of Array.applyBorders for a border-only row at index b
+            if b == 0:
+                if not (r > 1 and keep[1]):
+                    continue            # handed to row 1, which is dropped itself
+            elif not any(keep[:b]):
+                continue                # no content row above yet: handed to nobody
+        sb = sidx[b]
         if rules[b][0]:
             for j in range(n):
-                H.add((b, j))
+                H.add((sb, j))
         for cl in rules[b][1:]:
             if not cl:
                 continue
             lo, hi = cl
-            if CLINE_SKIP_SPAN in dev:
+            if CLINE_SKIP_SPAN in dev and all(keep):
                 # literal model of BorderCommand.applyBorders on the row the command is attached to
                 att = b if b < r else r - 1
                 colnum = 1
@@ -306,39 +361,61 @@ def build_table(ast, m, outer, dev=()):
                         colnum += 1
                         continue
                     for j in range(c0, c0 + span):
-                        H.add((b, j))
+                        H.add((sb, j))
                     colnum += span
             else:
                 for j in range(lo - 1, hi):
-                    H.add((b, j))
+                    H.add((sb, j))
     declared = n + (2 if lead_at else 0)
     return ''.join(out), ('table', declared, tuple(exp_rows), tuple(sorted(H)), tuple(sorted(V)), ())
 
 
 def cline_aligned(rows, b, lo, hi):
-    """the range lo..hi (1-based, inclusive) is a union of whole cells in every row adjacent to boundary b"""
-    for i in (b - 1, b):
-        if 0 <= i < len(rows):
-            col = 0
-            starts, ends = set(), set()
-            for span, mcspec, kind in rows[i]:
-                starts.add(col)
-                col += span
-                ends.add(col)
-            if lo - 1 not in starts or hi not in ends:
-                return False
+    """the range lo..hi (1-based, inclusive) is a union of whole cells in every surviving row adjacent to the
+    boundary that the written boundary b maps to (rows without content do not count)"""
+    above = [row for row in rows[:b] if not row_is_empty(row)][-1:]
+    below = [row for row in rows[b:] if not row_is_empty(row)][:1]
+    for row in above + below:
+        col = 0
+        starts, ends = set(), set()
+        for span, mcspec, kind in row:
+            starts.add(col)
+            col += span
+            ends.add(col)
+        if lo - 1 not in starts or hi not in ends:
+            return False
     return True
 
 
 # ---------------------------------------------------------------------------
 # lists
 # ---------------------------------------------------------------------------
-def build_list(ast, m, dev=(), loose=0):
-    """ast = [kind, [item, ...]], item = [term(0/1), ctype, sublist|None] -> (source, expected 'list' segment)
+ROMAN = ['i', 'ii', 'iii', 'iv']
+
+
+def list_exp(kind, items, m, start=0):
+    """items = [(term, segments), ...] -> 'list' segment; when the document has the enum counters every item carries
+    its number: position start+1, start+2, ... in order (and, in enumerate, a reference text showing that number)"""
+    out = []
+    for k, (t, segs) in enumerate(items):
+        pos = None
+        if m.pos:
+            pos = (start + k + 1, str(start + k + 1) if kind == 'enumerate' else None)
+        out.append((t, pos, segs))
+    return ('list', kind, tuple(out))
+
+
+def build_list(ast, m, dev=(), loose=0, depth=1):
+    """ast = [kind, [item, ...]] or [kind, items, start]; item = [term(0/1), ctype, sub] -> (source, 'list' segment)
+    sub: None | nested list (NB, NT) | [list, list] (N2, N2B: two sibling lists inside one item)
+    start: \\setcounter{enum<depth>}{start} between \\begin and the first \\item
     loose: blank lines after \\begin, between items and before \\end (the usual way lists are typed)"""
-    kind, items = ast
+    kind, items = ast[0], ast[1]
+    start = ast[2] if len(ast) > 2 and ast[2] else 0
     sep = '\n' if loose else ''
     out = ['\\begin{%s}\n%s' % (kind, sep)]
+    if start:
+        out.append('\\setcounter{enum%s}{%d}\n' % (ROMAN[depth - 1], start))
     exp = []
     for term, ctype, sub in items:
         s = '\\item'
@@ -361,28 +438,41 @@ def build_list(ast, m, dev=(), loose=0):
         elif ctype == 'EL':
             a, b, c = m(), m(), m()
             s += ' %s\n\\begin{quote}\\begin{itemize}\\item %s\\item %s\\end{itemize}\\end{quote}\n' % (a, b, c)
-            segs = (T(a), ('env', 'quote', (('list', 'itemize', ((None, (T(b),)), (None, (T(c),)))),)))
+            segs = (T(a), ('env', 'quote', (list_exp('itemize', [(None, (T(b),)), (None, (T(c),))], m),)))
         elif ctype == 'ET':
             a = m()
             ts, te = build_table(IN_ITEM, m, None, dev)
             s += ' %s\n%s\n' % (a, ts)
             segs = (T(a), te)
         elif ctype == 'NB':
-            ss, se = build_list(sub, m, dev, loose)
+            ss, se = build_list(sub, m, dev, loose, depth + 1)
             s += '\n' + sep + ss
             segs = (se,)
         elif ctype == 'NT':
             a = m()
-            ss, se = build_list(sub, m, dev, loose)
+            ss, se = build_list(sub, m, dev, loose, depth + 1)
             b = m()
             s += ' %s\n%s%s\n' % (a, ss, b)
             segs = (T(a), se, T(b))
+        elif ctype == 'N2':
+            a = m()
+            s1, e1 = build_list(sub[0], m, dev, loose, depth + 1)
+            b = m()
+            s2, e2 = build_list(sub[1], m, dev, loose, depth + 1)
+            c = m()
+            s += ' %s\n%s%s\n%s%s\n' % (a, s1, b, s2, c)
+            segs = (T(a), e1, T(b), e2, T(c))
+        elif ctype == 'N2B':
+            s1, e1 = build_list(sub[0], m, dev, loose, depth + 1)
+            s2, e2 = build_list(sub[1], m, dev, loose, depth + 1)
+            s += '\n' + sep + s1 + s2
+            segs = (e1, e2)
         else:
             raise ValueError(ctype)
         out.append(s + sep)
         exp.append((t, segs))
     out.append('\\end{%s}\n' % kind)
-    return ''.join(out), ('list', kind, tuple(exp))
+    return ''.join(out), list_exp(kind, exp, m, start)
 
 
 # ---------------------------------------------------------------------------
@@ -390,8 +480,8 @@ def build_list(ast, m, dev=(), loose=0):
 # ---------------------------------------------------------------------------
 def build(case, dev=()):
     """case = {'fam': 'table'|'list', 'ast': ..., 'wrap': ...} -> (source, expected segments of the document)"""
-    m = Alloc()
     wrap = case.get('wrap', 'bare')
+    m = Alloc(pos=bool(wrap == 'article' or case.get('article')))
     if case['fam'] == 'list':
         a = m()
         s, e = build_list(case['ast'], m, dev, case.get('loose', 0))
@@ -414,7 +504,7 @@ def build(case, dev=()):
             i2, i3, b = m(), m(), m()
             src = ('\\def\\zzL{%s}%s\n\\begin{itemize}\n\\item %s\n%s\n%s\n\\item %s\n\\end{itemize}\n%s \\zzL\n'
                    % (outer, a, i1, s, i2, i3, b))
-            exp = (T(a), ('list', 'itemize', ((None, (T(i1), e, T(i2))), (None, (T(i3),)))), T(b, outer))
+            exp = (T(a), list_exp('itemize', [(None, (T(i1), e, T(i2))), (None, (T(i3),))], m), T(b, outer))
         elif wrap == 'center':
             s, e = build_table(ast, m, outer, dev)
             b = m()
